@@ -23,6 +23,9 @@ type convKind struct {
 	expect map[string]interface{} // class -> value the caller must receive (as K); absent = zero value of K
 }
 
+// many: several supplied values of one class
+type many []interface{}
+
 func cvFn() int { return 7 }
 
 type cvErr struct{ msg string }
@@ -35,7 +38,8 @@ func convKinds() []convKind {
 	hs := &conv.S{7, "h"}
 	return []convKind{
 		{"ptr", conv.RPtr, conv.PPtr,
-			map[string]interface{}{"nil": nil, "typednil": (*conv.S)(nil), "val": &conv.S{1, "a"}, "lookalike": &conv.SL{2, "b"}},
+			map[string]interface{}{"nil": nil, "typednil": (*conv.S)(nil), "val": &conv.S{1, "a"}, "lookalike": &conv.SL{2, "b"},
+				"otherkind": many{int32(7), "a string", []int{1}, conv.SBig{1, "a", 2}, true}},
 			map[string]interface{}{"val": &conv.S{1, "a"}, "lookalike": &conv.S{2, "b"}}},
 		{"error", conv.RErr, conv.PErr, map[string]interface{}{"nil": nil, "concrete": e1, "nilconcrete": (*cvErr)(nil)},
 			map[string]interface{}{"concrete": e1, "nilconcrete": (*cvErr)(nil)}},
@@ -43,13 +47,15 @@ func convKinds() []convKind {
 			map[string]interface{}{"concrete": conv.S{3, "c"}, "nilconcrete": (*conv.S)(nil)}},
 		{"slice", conv.RSlice, conv.PSlice, map[string]interface{}{"nil": nil, "typednil": []int(nil), "val": []int{1, 2}, "diffsize": (*conv.S)(nil)}, map[string]interface{}{"val": []int{1, 2}}},
 		{"map", conv.RMap, conv.PMap, map[string]interface{}{"nil": nil, "typednil": map[string]int(nil), "val": map[string]int{"a": 1}, "diffsize": []int(nil)}, map[string]interface{}{"val": map[string]int{"a": 1}}},
-		{"chan", conv.RChan, conv.PChan, map[string]interface{}{"nil": nil, "typednil": (chan int)(nil), "val": ch}, map[string]interface{}{"val": ch}},
-		{"func", conv.RFunc, conv.PFunc, map[string]interface{}{"nil": nil, "typednil": (func() int)(nil), "val": cvFn}, map[string]interface{}{"val": cvFn}},
+		{"chan", conv.RChan, conv.PChan, map[string]interface{}{"nil": nil, "typednil": (chan int)(nil), "val": ch, "otherkind": many{int32(7), "a string", conv.SBig{1, "a", 2}}}, map[string]interface{}{"val": ch}},
+		{"func", conv.RFunc, conv.PFunc, map[string]interface{}{"nil": nil, "typednil": (func() int)(nil), "val": cvFn, "otherkind": many{int32(7), "a string", conv.SBig{1, "a", 2}}}, map[string]interface{}{"val": cvFn}},
 		{"struct", conv.RStruct, conv.PStruct,
-			map[string]interface{}{"nil": nil, "zero": conv.S{}, "val": conv.S{1, "a"}, "lookalike": conv.SL{2, "b"}, "samesize": conv.SX{A: 5}, "diffsize": conv.SBig{1, "a", 2}},
+			map[string]interface{}{"nil": nil, "zero": conv.S{}, "val": conv.S{1, "a"}, "lookalike": conv.SL{2, "b"}, "samesize": conv.SX{A: 5}, "diffsize": conv.SBig{1, "a", 2},
+				"otherkind": many{&conv.S{1, "a"}, int32(7), "a string", 5, true}},
 			map[string]interface{}{"val": conv.S{1, "a"}, "lookalike": conv.S{2, "b"}}},
 		{"handle", conv.RHandle, conv.PHandle,
-			map[string]interface{}{"nil": nil, "zero": conv.H{}, "val": conv.H{P: hs}, "lookalike": conv.HL{P: hs}},
+			map[string]interface{}{"nil": nil, "zero": conv.H{}, "val": conv.H{P: hs}, "lookalike": conv.HL{P: hs},
+				"otherkind": many{int32(7), "a string", true, []int{1, 2}}},
 			map[string]interface{}{"val": conv.H{P: hs}, "lookalike": conv.H{P: hs}}},
 		{"array", conv.RArr, conv.PArr, map[string]interface{}{"nil": nil, "zero": [2]int{}, "val": [2]int{1, 2}, "diffsize": [3]int{1, 2, 3}}, map[string]interface{}{"val": [2]int{1, 2}}},
 		{"int", conv.RInt, conv.PInt, map[string]interface{}{"nil": nil, "zero": 0, "val": 5, "samesize": uint(5), "diffsize": int32(5)}, map[string]interface{}{"val": 5}},
@@ -122,61 +128,72 @@ func TestVerifArgConv(t *testing.T) {
 		enc.Encode(map[string]string{"kind": kind, "class": class, "path": path, "outcome": outcome})
 	}
 	for _, k := range convKinds() {
-		for class, sup := range k.sup {
-			for _, path := range []string{"return", "returns", "when"} {
-				b := mocker.Create()
-				outcome := ""
-				cfg := catch(func() {
-					switch path {
-					case "return":
-						b.Func(k.ret).Return(sup)
-					case "returns":
-						b.Func(k.ret).Returns(sup, sup)
-					case "when":
-						b.Func(k.par).When(sup).Return(9001)
+		for class, sups := range k.sup {
+			list, isMany := sups.(many)
+			if !isMany {
+				list = many{sups}
+			}
+			for _, sup := range list {
+				for _, path := range []string{"return", "returns", "returns-late", "when"} {
+					if path == "returns-late" && (k.sup["val"] == nil || (class != "diffsize" && class != "otherkind")) {
+						continue
 					}
-				})
-				if cfg != "" {
-					outcome = "rejected"
-				} else {
-					callp := catch(func() {
-						if path == "when" {
-							// the call passes the value the caller would have as K; it must match the condition
-							T := reflect.TypeOf(k.par).In(0)
-							a := reflect.Zero(T)
-							if e, ok := k.expect[class]; ok {
-								a = reflect.New(T).Elem()
-								a.Set(reflect.ValueOf(e))
-							}
-							r := reflect.ValueOf(k.par).Call([]reflect.Value{a})
-							if r[0].Int() == 9001 {
-								outcome = map[string]string{"nil": "typedzero", "concrete": "boxed", "nilconcrete": "boxed", "lookalike": "retyped", "samesize": "retyped"}[class]
-								if outcome == "" {
-									outcome = "same"
-								}
-							} else {
-								outcome = "wrong-no-match"
-							}
-							return
-						}
-						for i := 0; i < 2; i++ {
-							r := reflect.ValueOf(k.ret).Call(nil)
-							outcome = deliveredAs(class, k, r[0], sup)
-							if outcome[0] == 'w' {
-								return
-							}
+					b := mocker.Create()
+					outcome := ""
+					cfg := catch(func() {
+						switch path {
+						case "return":
+							b.Func(k.ret).Return(sup)
+						case "returns":
+							b.Func(k.ret).Returns(sup, sup)
+						case "returns-late":
+							b.Func(k.ret).Returns(k.sup["val"], sup)
+						case "when":
+							b.Func(k.par).When(sup).Return(9001)
 						}
 					})
-					if callp != "" {
-						outcome = "panic-at-call"
-						if len(callp) > 70 {
-							callp = callp[:70]
+					if cfg != "" {
+						outcome = "rejected"
+					} else {
+						callp := catch(func() {
+							if path == "when" {
+								// the call passes the value the caller would have as K; it must match the condition
+								T := reflect.TypeOf(k.par).In(0)
+								a := reflect.Zero(T)
+								if e, ok := k.expect[class]; ok {
+									a = reflect.New(T).Elem()
+									a.Set(reflect.ValueOf(e))
+								}
+								r := reflect.ValueOf(k.par).Call([]reflect.Value{a})
+								if r[0].Int() == 9001 {
+									outcome = map[string]string{"nil": "typedzero", "concrete": "boxed", "nilconcrete": "boxed", "lookalike": "retyped", "samesize": "retyped"}[class]
+									if outcome == "" {
+										outcome = "same"
+									}
+								} else {
+									outcome = "wrong-no-match"
+								}
+								return
+							}
+							for i := 0; i < 2; i++ {
+								r := reflect.ValueOf(k.ret).Call(nil)
+								outcome = deliveredAs(class, k, r[0], sup)
+								if outcome[0] == 'w' {
+									return
+								}
+							}
+						})
+						if callp != "" {
+							outcome = "panic-at-call"
+							if len(callp) > 70 {
+								callp = callp[:70]
+							}
+							outcome += ":" + callp
 						}
-						outcome += ":" + callp
 					}
+					catch(func() { b.Reset() })
+					emit(k.name, class, path, outcome)
 				}
-				catch(func() { b.Reset() })
-				emit(k.name, class, path, outcome)
 			}
 		}
 	}
